@@ -102,6 +102,28 @@ fn main() {
             let code = runner::replay(scenarios::lookup, &path, &known);
             std::process::exit(code);
         }
+        "judge" => {
+            let path = args.get(2).cloned().unwrap_or_default();
+            std::process::exit(runner::judge_file(scenarios::lookup, &path, &known));
+        }
+        "reminimise" => {
+            // paseto-sim reminimise <property> --seed S --run I --clause C --out file [--tier t] [--inbox f]
+            let prop = args.get(2).cloned().unwrap_or_default();
+            let sc = match scenarios::lookup(&prop) {
+                Some(s) => s,
+                None => std::process::exit(2),
+            };
+            let tier = match arg_val(&args, "--tier").as_deref() {
+                Some("thorough") => Tier::Thorough,
+                _ => Tier::Quick,
+            };
+            let inbox = arg_val(&args, "--inbox").and_then(|p| std::fs::read_to_string(p).ok()).and_then(|s| serde_json::from_str(&s).ok()).unwrap_or_default();
+            let ctx = gen::GenCtx { verif_seed: seed, tier, inbox };
+            let index: u64 = arg_val(&args, "--run").and_then(|s| s.parse().ok()).unwrap_or(0);
+            let clause = arg_val(&args, "--clause").unwrap_or_default();
+            let out = arg_val(&args, "--out").unwrap_or_default();
+            std::process::exit(runner::reminimise(sc, &ctx, index, &clause, &known, &out));
+        }
         "outbox" => {
             let out = arg_val(&args, "--out").unwrap_or_else(|| "/dev/stdout".into());
             env::install();
